@@ -962,6 +962,35 @@ def _grading(r, idx, fi, selfn, ANS, STU):
         r.check(ret.value is pg, 'check_response: return', 'the processed result', 'returns `%s`' % short(ret.value), lib.loc(fi, ret))
 
 
+
+def _literal_record(idx, fi, e):
+    """A dict literal for `e` when e is a fresh copy of a module-level constant bound once to a dict literal:
+    CONST.copy(), dict(CONST), copy.copy(CONST), copy.deepcopy(CONST), {**CONST}; otherwise e itself."""
+    src = None
+    if isinstance(e, ast.Call) and isinstance(e.func, ast.Attribute) and e.func.attr == 'copy' and not e.args and isinstance(e.func.value, ast.Name):
+        src = e.func.value
+    elif isinstance(e, ast.Call) and nf.callee_name(e) in ('dict', 'copy', 'deepcopy') and len(e.args) == 1 and not e.keywords \
+            and isinstance(e.args[0], ast.Name):
+        src = e.args[0]
+    elif isinstance(e, ast.Dict) and len(e.keys) == 1 and e.keys[0] is None and isinstance(e.values[0], ast.Name):
+        src = e.values[0]
+    if src is None:
+        return e
+    if src.id in lib.local_env(fi.node) or src.id in fi.all_params:
+        return e
+    vals = fi.module.assigns.get(src.id, [])
+    if len(vals) == 1 and isinstance(vals[0], ast.Dict):
+        # the constant must not be written anywhere in the module
+        for n in ast.walk(fi.module.tree):
+            if isinstance(n, (ast.Subscript, ast.Attribute)) and isinstance(n.ctx, (ast.Store, ast.Del)) and cm.is_name(getattr(n, 'value', None), src.id):
+                return e
+            if isinstance(n, ast.Call) and isinstance(n.func, ast.Attribute) and cm.is_name(n.func.value, src.id) \
+                    and n.func.attr in ('update', 'pop', 'clear', 'setdefault', 'popitem', '__setitem__'):
+                return e
+        return vals[0]
+    return e
+
+
 # ------------------------------------------------------------------------------- D5
 def d5_padding(ctx, idx):
     r = ctx.rule('D5.PAD', 'automatic failures on either side score zero with all_awarded False; both lists are padded to the '
@@ -986,7 +1015,7 @@ def d5_padding(ctx, idx):
             if p.leaf.kind != 'ret':
                 r.violation('padded_check: result', 'a path returns nothing / raises', where)
                 continue
-            e = p.leaf.expr
+            e = _literal_record(idx, inner, p.leaf.expr)
             if isinstance(e, ast.Dict):
                 seen.add('zero')
                 d = {k.value: nf.const_value(v, '?') for k, v in zip(e.keys, e.values) if isinstance(k, ast.Constant)}
@@ -1194,7 +1223,7 @@ def d7_solver(ctx, idx):
     reference (C06.D2 INIT, C06.D3 RESULT, C06.D4 STEPS) here as well, so a change of the solver is reported under this id."""
     from . import c06
     r = ctx.rule('D7.SOLVER', 'the assignment solver equals the reviewed Munkres reference (state re-initialised per solve, '
-                 'result extraction, step table, per-cell step effects) -- a pin to the reference, not a proof of optimality', floor=73)
+                 'result extraction, step table, per-cell step effects) -- a pin to the reference, not a proof of optimality', floor=77)
     with r:
         c06.solver_rules(r, idx)
 
@@ -1289,6 +1318,8 @@ MUTANTS = [
     Mutant('failure-only-answer-side', LG, "isinstance(ans, _AutomaticFailure) or isinstance(inp, _AutomaticFailure)", "isinstance(ans, _AutomaticFailure)", 'D5'),
     Mutant('failure-all-awarded', LG, "'grade_decimal': 0, 'all_awarded': False}", "'grade_decimal': 0, 'all_awarded': True}", 'D5'),
     Mutant('failure-full-credit', LG, "'grade_decimal': 0, 'all_awarded': False}", "'grade_decimal': 1, 'all_awarded': False}", 'D5'),
+    Mutant('failure-result-hoisted-wrong', LG, "def padded_check(check):\n    \"\"\"Wraps a check function to reject _AutomaticFailure\"\"\"\n    def _check(ans, inp):\n        if isinstance(ans, _AutomaticFailure) or isinstance(inp, _AutomaticFailure):\n            return {'ok': False, 'msg': '', 'grade_decimal': 0, 'all_awarded': False}",
+           "_FAILED = {'ok': False, 'msg': '', 'grade_decimal': 0, 'all_awarded': True}\n\ndef padded_check(check):\n    \"\"\"Wraps a check function to reject _AutomaticFailure\"\"\"\n    def _check(ans, inp):\n        if isinstance(ans, _AutomaticFailure) or isinstance(inp, _AutomaticFailure):\n            return _FAILED.copy()", 'D5'),
     Mutant('failure-no-all-awarded', LG, "'grade_decimal': 0, 'all_awarded': False}", "'grade_decimal': 0}", 'D5'),
     Mutant('pad-inputs-only', LG, "    padded1 = list1 + [_AutomaticFailure()]*(maxlen-len(list1))", "    padded1 = list1", 'D5'),
     Mutant('pad-answers-only', LG, "    padded2 = list2 + [_AutomaticFailure()]*(maxlen-len(list2))", "    padded2 = list2[:]", 'D5'),
@@ -1337,6 +1368,8 @@ BENIGN = [
     Benign('matching-cost-scaled', LG, "        return 1 - result['grade_decimal']", "        return 100 * (1 - result['grade_decimal'])"),
     Benign('blank-test-not-strip', LG, "                         if item.strip() == '']", "                         if not item.strip()]"),
     Benign('blank-test-isspace', LG, "                         if item.strip() == '']", "                         if item == '' or item.isspace()]"),
+    Benign('failure-result-hoisted', LG, "def padded_check(check):\n    \"\"\"Wraps a check function to reject _AutomaticFailure\"\"\"\n    def _check(ans, inp):\n        if isinstance(ans, _AutomaticFailure) or isinstance(inp, _AutomaticFailure):\n            return {'ok': False, 'msg': '', 'grade_decimal': 0, 'all_awarded': False}",
+           "_FAILED = {'ok': False, 'msg': '', 'grade_decimal': 0, 'all_awarded': False}\n\ndef padded_check(check):\n    \"\"\"Wraps a check function to reject _AutomaticFailure\"\"\"\n    def _check(ans, inp):\n        if isinstance(ans, _AutomaticFailure) or isinstance(inp, _AutomaticFailure):\n            return dict(_FAILED)"),
     Benign('all-awarded-list-form', LG, "all(item['grade_decimal'] > 0 for item in grade_list)", "all([item['grade_decimal'] > 0 for item in grade_list])"),
     Benign('message-guard-nested', LG, "        if all_awarded and msg != '':\n            result['msg'] = msg if result['msg'] == '' else result['msg'] + '\\n' + msg",
            "        if all_awarded:\n            if msg != '':\n                result['msg'] = msg if result['msg'] == '' else result['msg'] + '\\n' + msg"),
